@@ -31,11 +31,13 @@ def wrap(sections, cls=64, le=True, machine=62, etype=3, compress=None, level=6,
         dynstr = img.add(eg.Sec('.dynstr', 3, data=dst.bytes(), flags=2, addr=0x400500))
         dynsym = img.add(eg.Sec('.dynsym', 11, data=b''.join(f.sym(doffs[i], 0x402000 + i, i, 0x12 if i else 0, 0, 0) for i in range(len(dn))), flags=2,
                                 addr=0x400400, link=dynstr.index, info=1, entsize=f.symsize, align=8))
-        img.add(eg.Sec('.gnu.hash', 0x6ffffff6, data=hashes.build_gnu(dn, 1, 2, 1, 6, cls, le), flags=2, addr=0x400380, link=dynsym.index, align=8))
-        img.add(eg.Sec('.hash', 5, data=hashes.build_sysv(dn, 3, le), flags=2, addr=0x400300, link=dynsym.index, entsize=4, align=8))
-        tags = [(1, lib), (5, 0x400500), (6, 0x400400), (10, len(dst.bytes())), (11, f.symsize), (14, lib), (0, 0)]
+        ghash = img.add(eg.Sec('.gnu.hash', 0x6ffffff6, data=hashes.build_gnu(dn, 1, 2, 1, 6, cls, le), flags=2, addr=0x400380, link=dynsym.index, align=8))
+        shash = img.add(eg.Sec('.hash', 5, data=hashes.build_sysv(dn, 3, le), flags=2, addr=0x400300, link=dynsym.index, entsize=4, align=8))
+        tags = [(1, lib), (5, 0x400500), (6, 0x400400), (10, len(dst.bytes())), (11, f.symsize), (14, lib), (0x6ffffef5, 0x400380), (4, 0x400300), (0, 0)]
         dyn = img.add(eg.Sec('.dynamic', 6, data=b''.join(f.dyn(t, v) for t, v in tags), flags=3, addr=0x403000, link=dynstr.index, entsize=f.dynsize, align=8))
         img.seg(eg.Seg(2, 6, of=dyn))
+        for s_ in (dynstr, dynsym, ghash, shash, dyn):      # every dynamic pointer is mapped by a PT_LOAD (one per section: biases differ)
+            img.seg(eg.Seg(1, 4, of=s_, align=8))
     if with_notes:
         o = f.o
         nd = struct.pack(o + 'III', 4, 20, 3) + b'GNU\0' + bytes(range(20)) + struct.pack(o + 'III', 4, 16, 1) + b'GNU\0' + struct.pack(o + 'IIII', 0, 3, 2, 0)
